@@ -32,6 +32,10 @@ def enumerate_states(tier):
     for shape in SHAPES:
         for asy in (False, True):
             for borrowed in (False, True):
+                if shape == "ident":
+                    for w in (("i",), ("i", "i")):
+                        states.append(dict(key="c_stamped_%s_%s_%s" % ("a" if asy else "s", "bor" if borrowed else "own", "".join(w)),
+                                           shape=shape, asy=asy, borrowed=borrowed, word="".join(w), maybe_send=False, stamped=True))
                 for w in words:
                     for ms in ((False, True) if asy else (False,)):
                         states.append(dict(key="c_%s_%s_%s_%s%s" % (shape, "a" if asy else "s", "bor" if borrowed else "own", "".join(w) or "0", "_ms" if ms else ""),
@@ -62,8 +66,16 @@ def render(s):
     L = ["mod %s {" % key, "    use super::rt;"]
     if pre:
         L.append("    " + pre)
-    L.append("    #[::entrait::entrait(pub Tr%s)]" % (", ?Send" if ms else ""))
-    L.append("    %s { %s }" % (sig, body))
+    if s.get("stamped"):
+        # the function is stamped out by macro_rules, the concrete dependency type is a macro argument
+        L.append("    macro_rules! stamp { ($t:ident) => {")
+        L.append("    #[::entrait::entrait(pub Tr%s)]" % (", ?Send" if ms else ""))
+        L.append("    %s { %s }" % (sig.replace("&Cfg", "&$t").replace("&'d Cfg", "&'d $t"), body))
+        L.append("    } }")
+        L.append("    stamp!(Cfg);")
+    else:
+        L.append("    #[::entrait::entrait(pub Tr%s)]" % (", ?Send" if ms else ""))
+        L.append("    %s { %s }" % (sig, body))
     # an application adopting the leaf trait by hand (README case 1), and Sync-only / unrelated probe types
     hand_params = "".join(", " + p for p in params)
     hand_args = ", ".join(shows)
